@@ -55,7 +55,7 @@ def ser(obj, container):
 
 def build(case):
     inner = {"allowed": [torch.tensor([1.0, 2.0]), {"w": torch.zeros(2)}], "sink": R(verif_sink.hit, ("nested",)),
-             "dangerous": R(os.getpid, ())}[case["inner"]]
+             "dangerous": R(os.getpid, ()), "mlonly": [__import__("datetime").date, __import__("fractions").Fraction]}[case["inner"]]
     chain = case["chain"]
     obj = inner
     # serialise from the inside out: level i+1 in container chain[i][1], handed to wrapper chain[i][0]
@@ -93,6 +93,12 @@ def main():
             fickling.activate_safe_ml_environment(also_allow=list(adds))
         else:
             fickling.activate_safe_ml_environment()
+        cm = None
+        if c.get("layer") == "ml+context":
+            cm = fickling.check_safety()
+            cm.__enter__()
+        elif c.get("layer") == "ml+armed":
+            fickling.always_check_safety()
         ON[0] = True
         exc = ""
         try:
@@ -111,6 +117,8 @@ def main():
             o, exc = "other", type(e).__name__ + ":" + str(e)[:80]
         finally:
             ON[0] = False
+            if cm is not None:
+                cm.__exit__(None, None, None)
             hook.remove_hook()
             reset()
         out.append({"id": i, "case": c, "built": True, "outsider": c["outsider"], "out": o, "exc": exc,
